@@ -6,7 +6,7 @@
    are distinct, as in Python (follow looks a key up by first match); root_ok = the root is not a
    dangling pointer.  Hypotheses a statement does not need have been dropped. *)
 From Fiddle Require Import PyBase PySlice Sig ArgStore PyCall Heap Traverse Build Build_stmt
-  Traverse_proofs Build_proofs Iterate_proofs Anchors.
+  Traverse_proofs Build_proofs Iterate_proofs.
 From Coq Require Import List.
 Import ListNotations.
 Local Open Scope nat_scope.
